@@ -1,7 +1,7 @@
 (* Export_proofs.v — lemmas about the TensorBoard per-rank export and the DataFrame export of Export.v.
    Everything is stated over the executable definitions the correspondence check evaluates
-   ([parse_by_rank_id], [rank_cnt], [tb_flush], [df_export], [json_export], [worker_name]). *)
-From Coq Require Import ZArith QArith List Bool String Ascii Arith Lia ZifyBool Permutation DecimalString DecimalNat FinFun.
+   ([parse_by_rank_id], [rank_ids], [rank_cnt], [tb_flush], [df_export], [json_export], [worker_name]). *)
+From Coq Require Import ZArith QArith List Bool String Ascii Arith Lia ZifyBool Permutation Sorted DecimalString DecimalNat FinFun.
 Import ListNotations.
 From AiuModel Require Import Base Export.
 Local Open Scope Z_scope.
@@ -26,6 +26,79 @@ Proof.
   - cbn. now constructor.
   - apply Permutation_sym. apply Permutation_cons_app. now apply Permutation_sym.
   - exact IH'.
+Qed.
+
+(* ------------------------------------------------------------------ sorted() on distinct ints *)
+Lemma z_insert_perm x l : Permutation (z_insert x l) (x :: l).
+Proof.
+  induction l as [|y r IH]; cbn; [reflexivity|]. destruct (x <=? y); [reflexivity|].
+  eapply Permutation_trans; [apply perm_skip, IH|apply perm_swap].
+Qed.
+
+Lemma z_sort_perm l : Permutation (z_sort l) l.
+Proof.
+  induction l as [|x r IH]; cbn; [constructor|].
+  eapply Permutation_trans; [apply z_insert_perm|now constructor].
+Qed.
+
+Lemma z_insert_sorted x l : StronglySorted Z.lt l -> ~ In x l -> StronglySorted Z.lt (z_insert x l).
+Proof.
+  induction l as [|y r IH]; cbn; intros Hs Hn.
+  - constructor; constructor.
+  - apply StronglySorted_inv in Hs. destruct Hs as [Hr Hy].
+    destruct (x <=? y) eqn:E.
+    + assert (Hxy : x < y). { assert (x <> y) by (intro; apply Hn; now left). lia. }
+      constructor; [now constructor|]. constructor; [assumption|].
+      eapply Forall_impl; [|exact Hy]. cbn. intros; lia.
+    + constructor; [apply IH; [assumption|intro; apply Hn; now right]|].
+      apply Forall_forall. intros z Hz. apply (Permutation_in _ (z_insert_perm x r)) in Hz.
+      destruct Hz as [<-|Hz]; [lia|]. rewrite Forall_forall in Hy. now apply Hy.
+Qed.
+
+Lemma z_sort_sorted l : NoDup l -> StronglySorted Z.lt (z_sort l).
+Proof.
+  induction 1 as [|x l Hn Hd IH]; cbn; [constructor|]. apply z_insert_sorted; [assumption|].
+  intro H. apply Hn. now apply (Permutation_in _ (z_sort_perm l)).
+Qed.
+
+(* a strictly ascending list is determined by its elements *)
+Lemma sorted_unique l1 : forall l2, StronglySorted Z.lt l1 -> StronglySorted Z.lt l2 ->
+  (forall k, In k l1 <-> In k l2) -> l1 = l2.
+Proof.
+  induction l1 as [|a l1 IH]; intros [|b l2] H1 H2 Hiff.
+  - reflexivity.
+  - exfalso. apply (proj2 (Hiff b)). now left.
+  - exfalso. apply (proj1 (Hiff a)). now left.
+  - apply StronglySorted_inv in H1, H2. destruct H1 as [S1 F1], H2 as [S2 F2]. rewrite Forall_forall in F1, F2.
+    assert (a = b).
+    { destruct (proj1 (Hiff a) (or_introl eq_refl)) as [->|Ha]; [reflexivity|].
+      destruct (proj2 (Hiff b) (or_introl eq_refl)) as [->|Hb]; [reflexivity|].
+      specialize (F1 _ Hb). specialize (F2 _ Ha). lia. }
+    subst b. f_equal. apply IH; try assumption. intros k. split; intros Hk.
+    + destruct (proj1 (Hiff k) (or_intror Hk)) as [<-|]; [|assumption]. specialize (F1 _ Hk). lia.
+    + destruct (proj2 (Hiff k) (or_intror Hk)) as [<-|]; [|assumption]. specialize (F2 _ Hk). lia.
+Qed.
+
+Lemma sorted_seq s n : StronglySorted Z.lt (map Z.of_nat (seq s n)).
+Proof.
+  revert s. induction n as [|n IH]; intros s; cbn; constructor; [apply IH|].
+  apply Forall_forall. intros z Hz. apply in_map_iff in Hz. destruct Hz as (m & <- & Hm). apply in_seq in Hm. lia.
+Qed.
+
+(* looking a key up in a list zipped with its image *)
+Lemma find_combine_in {B} (f : Z -> B) ids r : In r ids ->
+  find (fun p => fst p =? r) (combine ids (map f ids)) = Some (r, f r).
+Proof.
+  induction ids as [|a ids IH]; intros H; [destruct H|]. cbn. destruct (a =? r) eqn:E.
+  - apply Z.eqb_eq in E. now subst.
+  - apply IH. destruct H as [->|H]; [|assumption]. now rewrite Z.eqb_refl in E.
+Qed.
+Lemma find_combine_notin {B} (f : Z -> B) ids r : ~ In r ids ->
+  find (fun p => fst p =? r) (combine ids (map f ids)) = None.
+Proof.
+  induction ids as [|a ids IH]; intros H; [reflexivity|]. cbn. destruct (a =? r) eqn:E.
+  - apply Z.eqb_eq in E. exfalso. apply H. now left.
+  - apply IH. intro. apply H. now right.
 Qed.
 
 (* ------------------------------------------------------------------ the dict of lists *)
@@ -142,29 +215,69 @@ Section Groups.
     - intros k. rewrite filter_In, (parse_keys _ _ _ H k), Hiff. cbn. rewrite Z.leb_le. intuition.
   Qed.
 
-  (* elements filed under a rank id in [0, n) *)
-  Definition in_range (n : nat) (x : A) : bool :=
-    match kz x with Some k => (0 <=? k) && (k <? Z.of_nat n) | None => false end.
+  (* the rank ids are the distinct non-negative ids present, in ascending order *)
+  Definition present (data : list A) (k : Z) : Prop := exists x, In x data /\ key_is k x = true.
+
+  Lemma rank_ids_spec data g : parse_by_rank_id key data = Some g ->
+    StronglySorted Z.lt (rank_ids g) /\ NoDup (rank_ids g) /\ List.length (rank_ids g) = rank_cnt g /\
+    forall k, In k (rank_ids g) <-> 0 <= k /\ present data k.
+  Proof.
+    intros H. unfold rank_ids, rank_cnt.
+    assert (Hn : NoDup (filter (fun k => 0 <=? k) (g_keys g))).
+    { apply NoDup_filter. apply (parse_nodup _ _ _ H). constructor. }
+    pose proof (z_sort_perm (filter (fun k => 0 <=? k) (g_keys g))) as P.
+    repeat split.
+    - now apply z_sort_sorted.
+    - apply (Permutation_NoDup (Permutation_sym P) Hn).
+    - now apply Permutation_length.
+    - apply (Permutation_in _ P) in H0. apply filter_In in H0. destruct H0 as [_ H0]. now apply Z.leb_le.
+    - apply (Permutation_in _ P) in H0. apply filter_In in H0. destruct H0 as [H0 _].
+      apply (parse_keys _ _ _ H k) in H0. destruct H0 as [[]|H0]. exact H0.
+    - intros [Hk Hp]. apply (Permutation_in _ (Permutation_sym P)). apply filter_In. split.
+      + apply (parse_keys _ _ _ H k). now right.
+      + now apply Z.leb_le.
+  Qed.
+
+  (* elements filed under one of the ids / under a non-negative id *)
+  Definition in_ids (ids : list Z) (x : A) : bool :=
+    match kz x with Some k => existsb (Z.eqb k) ids | None => false end.
   Definition nonneg (x : A) : bool := match kz x with Some k => 0 <=? k | None => false end.
 
-  (* the per-rank filters for r = 0..n-1, concatenated, are a rearrangement of the elements in range:
-     every such element occurs in exactly one of them, exactly as often as in the input *)
-  Lemma concat_views_perm data n :
-    Permutation (List.concat (map (fun r => filter (key_is (Z.of_nat r)) data) (seq 0 n))) (filter (in_range n) data).
+  (* the per-rank filters for distinct ids, concatenated, are a rearrangement of the elements filed under one of
+     them: every such element occurs in exactly one of them, exactly as often as in the input *)
+  Lemma concat_views_perm data ids : NoDup ids ->
+    Permutation (List.concat (map (fun r => filter (key_is r) data) ids)) (filter (in_ids ids) data).
   Proof.
-    induction n as [|n IH].
-    - cbn. rewrite filter_none; [constructor|]. intros x _. unfold in_range. destruct (kz x); [|reflexivity].
-      destruct (0 <=? z) eqn:E1, (z <? Z.of_nat 0) eqn:E2; try reflexivity. lia.
-    - rewrite seq_S, map_app, concat_app. cbn [map List.concat plus]. rewrite app_nil_r.
-      eapply Permutation_trans; [apply Permutation_app_tail, IH|].
-      apply filter_split_perm; intros x _; unfold in_range, key_is; destruct (kz x) as [k|]; try reflexivity.
-      + destruct (0 <=? k) eqn:E1, (k <? Z.of_nat (S n)) eqn:E2, (k <? Z.of_nat n) eqn:E3, (k =? Z.of_nat n) eqn:E4;
-          try reflexivity; lia.
-      + destruct (0 <=? k) eqn:E1, (k <? Z.of_nat n) eqn:E3, (k =? Z.of_nat n) eqn:E4; try reflexivity; lia.
+    induction 1 as [|r ids Hn Hd IH].
+    - cbn. rewrite filter_none; [constructor|]. intros x _. unfold in_ids. now destruct (kz x).
+    - cbn [map List.concat]. eapply Permutation_trans; [apply Permutation_app_head, IH|].
+      apply filter_split_perm; intros x _; unfold in_ids, key_is; destruct (kz x) as [k|]; try reflexivity.
+      destruct (k =? r) eqn:E; [|reflexivity]. apply Z.eqb_eq in E. subst k. cbn.
+      destruct (existsb (Z.eqb r) ids) eqn:Ex; [|reflexivity]. apply existsb_exists in Ex.
+      destruct Ex as (y & Hy & Hyr). apply Z.eqb_eq in Hyr. subst y. contradiction.
+  Qed.
+
+  Lemma in_ids_nonneg data g : parse_by_rank_id key data = Some g ->
+    forall x, In x data -> in_ids (rank_ids g) x = nonneg x.
+  Proof.
+    intros H x Hx. destruct (rank_ids_spec _ _ H) as (_ & _ & _ & Hin). unfold in_ids, nonneg.
+    destruct (kz x) as [k|] eqn:Ek; [|reflexivity]. apply eq_true_iff_eq. rewrite existsb_exists, Z.leb_le. split.
+    - intros (y & Hy & Hky). apply Z.eqb_eq in Hky. subst y. now apply Hin.
+    - intros Hk. exists k. split; [|apply Z.eqb_refl]. apply Hin. split; [assumption|].
+      exists x. split; [assumption|]. unfold key_is. rewrite Ek. apply Z.eqb_refl.
+  Qed.
+
+  (* the views of a parsed list, concatenated, hold every element with a non-negative id exactly once *)
+  Lemma parsed_views_perm data g : parse_by_rank_id key data = Some g ->
+    Permutation (List.concat (map (fun r => g_get r g) (rank_ids g))) (filter nonneg data).
+  Proof.
+    intros H. destruct (rank_ids_spec _ _ H) as (_ & Hn & _ & _).
+    erewrite map_ext; [|intros r; apply (parsed_get _ _ H)].
+    erewrite <- (filter_ext_in _ _ _ (in_ids_nonneg _ _ H)). now apply concat_views_perm.
   Qed.
 End Groups.
 
-(* fold: for a worker index below 1000 the filed pids are r and 1000 + r *)
+(* fold: for a rank id below 1000 the filed pids are r and 1000 + r *)
 Lemma fold_rank_eq z r : 0 <= r < 1000 -> (fold_rank z = r <-> z = r \/ z = 1000 + r).
 Proof. intros Hr. unfold fold_rank. destruct (1000 <=? z) eqn:E; lia. Qed.
 
@@ -172,6 +285,9 @@ Definition pid_in {A} (pid : A -> keyv) (r : Z) (x : A) : bool :=
   match pid x with KInt z => (z =? r) || (z =? 1000 + r) | _ => false end.
 Definition not_m1 {A} (pid : A -> keyv) (x : A) : bool :=
   match pid x with KInt z => negb (z =? -1) | _ => true end.
+(* the event has an int pid >= 0 *)
+Definition pid_nonneg {A} (pid : A -> keyv) (x : A) : bool :=
+  match pid x with KInt z => 0 <=? z | _ => false end.
 
 Lemma key_is_pid_in {A} (pid : A -> keyv) r x : 0 <= r < 1000 -> key_is pid r x = pid_in pid r x.
 Proof.
@@ -180,21 +296,37 @@ Proof.
   destruct (fold_rank z =? r) eqn:E1, (z =? r) eqn:E2, (z =? 1000 + r) eqn:E3; try reflexivity; lia.
 Qed.
 
+(* folding keeps the sign: filed under a non-negative id iff the pid is a non-negative int *)
+Lemma nonneg_pid_nonneg {A} (pid : A -> keyv) x : nonneg pid x = pid_nonneg pid x.
+Proof.
+  unfold nonneg, kz, pid_nonneg. destruct (pid x) as [z| |]; try reflexivity. unfold fold_rank.
+  destruct (1000 <=? z) eqn:E0; [destruct (0 <=? z - 1000) eqn:E1|]; destruct (0 <=? z) eqn:E2; try reflexivity; lia.
+Qed.
+
 (* ------------------------------------------------------------------ flush *)
 Section Flush.
   Context {A D : Type} (pid : A -> keyv) (did : D -> keyv).
 
-  Lemma flush_some events devices save res :
-    tb_flush pid did events devices save = Some res ->
+  Lemma flush_with_some ids_of events devices save res :
+    tb_flush_with pid did ids_of events devices save = Some res ->
     exists eg dg, parse_by_rank_id pid events = Some eg /\ parse_by_rank_id did devices = Some dg /\
-      res = {| tb_rank_cnt := rank_cnt eg; tb_views := views_of (rank_cnt eg) eg dg;
-               tb_workers_written := negb (Nat.eqb (rank_cnt eg) 1); tb_combined_written := save;
+      res = {| tb_rank_ids := ids_of eg; tb_rank_cnt := List.length (ids_of eg);
+               tb_views := views_of (ids_of eg) eg dg;
+               tb_workers_written := negb (Nat.eqb (List.length (ids_of eg)) 1); tb_combined_written := save;
                tb_combined := (events, devices) |}.
   Proof.
-    unfold tb_flush, tb_flush_with. destruct (parse_by_rank_id pid events) as [eg|]; [|discriminate].
+    unfold tb_flush_with. destruct (parse_by_rank_id pid events) as [eg|]; [|discriminate].
     destruct (parse_by_rank_id did devices) as [dg|]; [|discriminate]. intros H. injection H as <-.
     now exists eg, dg.
   Qed.
+  Lemma flush_some events devices save res :
+    tb_flush pid did events devices save = Some res ->
+    exists eg dg, parse_by_rank_id pid events = Some eg /\ parse_by_rank_id did devices = Some dg /\
+      res = {| tb_rank_ids := rank_ids eg; tb_rank_cnt := List.length (rank_ids eg);
+               tb_views := views_of (rank_ids eg) eg dg;
+               tb_workers_written := negb (Nat.eqb (List.length (rank_ids eg)) 1); tb_combined_written := save;
+               tb_combined := (events, devices) |}.
+  Proof. exact (flush_with_some rank_ids events devices save res). Qed.
 
   (* flush succeeds iff no event lacks 'pid' and no device entry lacks 'id' *)
   Lemma flush_total events devices save :
@@ -206,45 +338,70 @@ Section Flush.
     now eexists.
   Qed.
 
-  Lemma views_nth n (eg : groups A) (dg : groups D) r : (r < n)%nat ->
-    nth_error (views_of n eg dg) r = Some (g_get (Z.of_nat r) eg, g_get (Z.of_nat r) dg).
+  (* the rank ids: strictly ascending, exactly the non-negative folded ids that are present; rank_cnt is their number
+     and there is one view per id *)
+  Lemma tb_rank_ids_spec events devices save res :
+    tb_flush pid did events devices save = Some res ->
+    StronglySorted Z.lt (tb_rank_ids res) /\
+    (forall r, In r (tb_rank_ids res) <-> 0 <= r /\ present pid events r) /\
+    tb_rank_cnt res = List.length (tb_rank_ids res) /\ List.length (tb_views res) = List.length (tb_rank_ids res) /\
+    tb_workers_written res = negb (Nat.eqb (List.length (tb_rank_ids res)) 1).
   Proof.
-    intros Hr. unfold views_of.
-    apply (map_nth_error (fun r => (g_get (Z.of_nat r) eg, g_get (Z.of_nat r) dg))).
-    rewrite (nth_error_nth' _ 0%nat); [|now rewrite seq_length]. now rewrite seq_nth.
+    intros H. destruct (flush_some _ _ _ _ H) as (eg & dg & He & Hd & ->). cbn.
+    destruct (rank_ids_spec pid _ _ He) as (Hs & _ & _ & Hin). repeat split; try assumption.
+    - now apply Hin.
+    - now apply Hin.
+    - now apply Hin.
+    - unfold views_of. now rewrite map_length.
   Qed.
 
-  (* (T1) worker r holds exactly the events filed under r — for r < 1000 those whose pid is r or 1000 + r —
-     in export order, and the device entries whose id is r or 1000 + r; no hypothesis on the pids *)
+  (* below 1000 "present" reads: some event has pid r or 1000 + r *)
+  Lemma present_pid_in events r : 0 <= r < 1000 ->
+    (present pid events r <-> exists e, In e events /\ pid_in pid r e = true).
+  Proof.
+    intros Hr. unfold present. split; intros (e & He & Hk); exists e; (split; [assumption|]).
+    - now rewrite <- key_is_pid_in.
+    - now rewrite key_is_pid_in.
+  Qed.
+
+  (* (T1) the view of rank id r holds exactly the events filed under r — for r < 1000 those whose pid is r or 1000 + r —
+     in export order, and the device entries whose id is r or 1000 + r; an id that is no rank id has no view.
+     No hypothesis on the pids *)
   Lemma tb_worker_content events devices save res :
     tb_flush pid did events devices save = Some res ->
-    List.length (tb_views res) = tb_rank_cnt res /\
-    forall r, (r < tb_rank_cnt res)%nat -> (r < 1000)%nat ->
-      nth_error (tb_views res) r = Some (filter (pid_in pid (Z.of_nat r)) events, filter (pid_in did (Z.of_nat r)) devices).
+    (forall i r, nth_error (tb_rank_ids res) i = Some r ->
+       nth_error (tb_views res) i = Some (filter (key_is pid r) events, filter (key_is did r) devices)) /\
+    (forall r, In r (tb_rank_ids res) ->
+       view_of_rank res r = Some (filter (key_is pid r) events, filter (key_is did r) devices) /\
+       (r < 1000 -> view_of_rank res r = Some (filter (pid_in pid r) events, filter (pid_in did r) devices))) /\
+    (forall r, ~ In r (tb_rank_ids res) -> view_of_rank res r = None).
   Proof.
-    intros H. destruct (flush_some _ _ _ _ H) as (eg & dg & He & Hd & ->). cbn. split.
-    - unfold views_of. now rewrite map_length, seq_length.
-    - intros r Hr H1000. rewrite views_nth by assumption.
-      rewrite (parsed_get _ _ _ He), (parsed_get _ _ _ Hd). f_equal. f_equal.
-      + apply filter_ext. intros x. apply key_is_pid_in. lia.
-      + apply filter_ext. intros x. apply key_is_pid_in. lia.
+    intros H. destruct (flush_some _ _ _ _ H) as (eg & dg & He & Hd & ->).
+    destruct (rank_ids_spec pid _ _ He) as (_ & _ & _ & Hin). unfold view_of_rank. cbn.
+    assert (Hv : forall r, (g_get r eg, g_get r dg) = (filter (key_is pid r) events, filter (key_is did r) devices)).
+    { intros r. now rewrite (parsed_get _ _ _ He), (parsed_get _ _ _ Hd). }
+    split; [|split].
+    - intros i r Hi. unfold views_of. rewrite nth_error_map, Hi. cbn. now rewrite Hv.
+    - intros r Hr. unfold views_of. rewrite (find_combine_in _ _ _ Hr). cbn. rewrite Hv. split; [reflexivity|].
+      intros H1000. apply Hin in Hr. destruct Hr as [H0 _]. do 2 f_equal; apply filter_ext; intros x; apply key_is_pid_in; lia.
+    - intros r Hr. unfold views_of. now rewrite (find_combine_notin _ _ _ Hr).
   Qed.
 
-  (* (T2, general form) the workers together are a rearrangement of the events filed under a rank id below the
-     rank count: each of those occurs in exactly one worker, exactly as often as it was exported *)
+  (* (T2) the workers together are a rearrangement of the events with an int pid >= 0: each of those occurs in exactly
+     one worker, exactly as often as it was exported; nothing else reaches a worker.  No hypothesis on the pids *)
   Lemma tb_workers_perm events devices save res :
     tb_flush pid did events devices save = Some res ->
-    Permutation (List.concat (workers res)) (filter (in_range pid (tb_rank_cnt res)) events).
+    Permutation (List.concat (workers res)) (filter (pid_nonneg pid) events).
   Proof.
     intros H. destruct (flush_some _ _ _ _ H) as (eg & dg & He & Hd & ->). unfold workers. cbn.
     unfold views_of. rewrite map_map. cbn.
-    erewrite map_ext; [apply concat_views_perm|]. intros r. cbn. apply (parsed_get _ _ _ He).
+    erewrite (filter_ext (pid_nonneg pid)); [apply (parsed_views_perm pid _ _ He)|].
+    intros x. symmetry. apply nonneg_pid_nonneg.
   Qed.
 
-  (* which events are lost: an int-pid event filed under k >= 0 reaches a worker iff k < rank count *)
   Lemma tb_in_worker_iff events devices save res e :
     tb_flush pid did events devices save = Some res ->
-    (In e (List.concat (workers res)) <-> In e events /\ in_range pid (tb_rank_cnt res) e = true).
+    (In e (List.concat (workers res)) <-> In e events /\ pid_nonneg pid e = true).
   Proof.
     intros H. pose proof (tb_workers_perm _ _ _ _ H) as P. split.
     - intros Hin. apply (Permutation_in _ P) in Hin. now apply filter_In in Hin.
@@ -256,55 +413,76 @@ Section Flush.
     tb_flush pid did events devices save = Some res -> tb_combined res = (events, devices) /\ tb_combined_written res = save.
   Proof. intros H. destruct (flush_some _ _ _ _ H) as (eg & dg & _ & _ & ->). now split. Qed.
 
-  (* the DESIGN domain: R ranks, pids in {0..R-1} u {1000..1000+R-1} u {-1}, every rank present *)
+  (* (T2, the property of C18 for the TensorBoard files) for ANY set of present rank ids *)
+  Lemma tb_partition events devices save res :
+    tb_flush pid did events devices save = Some res ->
+    StronglySorted Z.lt (tb_rank_ids res) /\
+    (forall r, In r (tb_rank_ids res) <-> 0 <= r /\ present pid events r) /\
+    (forall r, 0 <= r < 1000 -> (In r (tb_rank_ids res) <-> exists e, In e events /\ pid_in pid r e = true)) /\
+    tb_rank_cnt res = List.length (tb_rank_ids res) /\ List.length (workers res) = List.length (tb_rank_ids res) /\
+    tb_workers_written res = negb (Nat.eqb (List.length (tb_rank_ids res)) 1) /\
+    (forall r, In r (tb_rank_ids res) -> r < 1000 ->
+       view_of_rank res r = Some (filter (pid_in pid r) events, filter (pid_in did r) devices)) /\
+    (forall r, ~ In r (tb_rank_ids res) -> view_of_rank res r = None) /\
+    Permutation (List.concat (workers res)) (filter (pid_nonneg pid) events) /\
+    fst (tb_combined res) = events.
+  Proof.
+    intros H. destruct (tb_rank_ids_spec _ _ _ _ H) as (Hs & Hin & Hcnt & Hlen & Hw).
+    destruct (tb_worker_content _ _ _ _ H) as (_ & Hview & Hnone).
+    pose proof (tb_combined_all _ _ _ _ H) as [Hc _].
+    repeat match goal with |- _ /\ _ => split end; try assumption.
+    - intros r Hr. rewrite Hin, <- (present_pid_in events r Hr). intuition.
+    - unfold workers. now rewrite map_length.
+    - intros r Hr H1000. now apply (Hview r Hr).
+    - exact (tb_workers_perm _ _ _ _ H).
+    - now rewrite Hc.
+  Qed.
+
+  (* the dense numbering: R ranks, pids in {0..R-1} u {1000..1000+R-1} u {-1}, every rank present *)
   Definition tb_domain (R : nat) (events : list A) : Prop :=
     (forall e, In e events -> exists z, pid e = KInt z /\
         (z = -1 \/ 0 <= z < Z.of_nat R \/ 1000 <= z < 1000 + Z.of_nat R)) /\
     (forall r, (r < R)%nat -> exists e, In e events /\ (pid e = KInt (Z.of_nat r) \/ pid e = KInt (1000 + Z.of_nat r))).
 
-  Lemma domain_rank_cnt R events eg : (R <= 1000)%nat -> tb_domain R events ->
-    parse_by_rank_id pid events = Some eg -> rank_cnt eg = R.
+  Lemma domain_rank_ids R events eg : (R <= 1000)%nat -> tb_domain R events ->
+    parse_by_rank_id pid events = Some eg -> rank_ids eg = map Z.of_nat (seq 0 R).
   Proof.
-    intros HR [Hdom Hall] He.
-    rewrite (rank_cnt_char pid events eg (map Z.of_nat (seq 0 R)) He).
-    - now rewrite map_length, seq_length.
-    - apply Injective_map_NoDup; [intros a b; apply Nat2Z.inj|apply seq_NoDup].
-    - intros k. rewrite in_map_iff. split.
-      + intros (r & <- & Hr). apply in_seq in Hr. split; [lia|].
-        destruct (Hall r) as (e & Hin & Hp); [lia|]. exists e. split; [assumption|].
-        rewrite key_is_pid_in by lia. unfold pid_in. destruct Hp as [-> | ->].
-        * now rewrite Z.eqb_refl.
-        * rewrite Z.eqb_refl. apply orb_true_r.
-      + intros (Hk & e & Hin & Hkey). destruct (Hdom e Hin) as (z & Hz & Hcase).
-        unfold key_is, kz in Hkey. rewrite Hz in Hkey. apply Z.eqb_eq in Hkey. unfold fold_rank in Hkey.
-        exists (Z.to_nat k). split; [lia|]. apply in_seq. destruct (1000 <=? z) eqn:E; lia.
+    intros HR [Hdom Hall] He. destruct (rank_ids_spec pid _ _ He) as (Hs & _ & _ & Hin).
+    apply sorted_unique; [assumption|apply sorted_seq|]. intros k. rewrite Hin, in_map_iff. split.
+    - intros (Hk & e & Hine & Hkey). destruct (Hdom e Hine) as (z & Hz & Hcase).
+      unfold key_is, kz in Hkey. rewrite Hz in Hkey. apply Z.eqb_eq in Hkey. unfold fold_rank in Hkey.
+      exists (Z.to_nat k). split; [lia|]. apply in_seq. destruct (1000 <=? z) eqn:E; lia.
+    - intros (r & <- & Hr). apply in_seq in Hr. split; [lia|].
+      destruct (Hall r) as (e & Hine & Hp); [lia|]. exists e. split; [assumption|].
+      rewrite key_is_pid_in by lia. unfold pid_in. destruct Hp as [-> | ->].
+      + now rewrite Z.eqb_refl.
+      + rewrite Z.eqb_refl. apply orb_true_r.
   Qed.
 
-  (* (T2, domain form) the property of C18 for the TensorBoard files *)
-  Lemma tb_partition R events devices save res :
+  (* (T2, dense form) the special case of consecutive rank ids 0..R-1: worker index = rank *)
+  Lemma tb_partition_dense R events devices save res :
     (2 <= R <= 1000)%nat -> tb_domain R events ->
     tb_flush pid did events devices save = Some res ->
-    tb_rank_cnt res = R /\ List.length (workers res) = R /\ tb_workers_written res = true /\
+    tb_rank_ids res = map Z.of_nat (seq 0 R) /\ tb_rank_cnt res = R /\ List.length (workers res) = R /\
+    tb_workers_written res = true /\
     (forall r, (r < R)%nat -> nth_error (workers res) r = Some (filter (pid_in pid (Z.of_nat r)) events)) /\
     Permutation (List.concat (workers res)) (filter (not_m1 pid) events) /\
     fst (tb_combined res) = events.
   Proof.
-    intros HR Hdom H. pose proof (tb_worker_content _ _ _ _ H) as [Hlen Hnth].
+    intros HR Hdom H. pose proof (tb_worker_content _ _ _ _ H) as (Hnth & _ & _).
     pose proof (tb_workers_perm _ _ _ _ H) as P. pose proof (tb_combined_all _ _ _ _ H) as [Hc _].
-    destruct (flush_some _ _ _ _ H) as (eg & dg & He & Hd & Hres).
-    assert (Hcnt : tb_rank_cnt res = R).
-    { rewrite Hres. cbn. apply (domain_rank_cnt R events eg); [lia|assumption|assumption]. }
-    rewrite Hcnt in *. repeat split.
+    destruct (tb_rank_ids_spec _ _ _ _ H) as (_ & _ & Hcnt & Hlen & Hw).
+    assert (Hids : tb_rank_ids res = map Z.of_nat (seq 0 R)).
+    { destruct (flush_some _ _ _ _ H) as (eg & dg & He & Hd & ->). cbn. apply (domain_rank_ids R events eg); [lia|assumption|assumption]. }
+    rewrite Hids, map_length, seq_length in *. repeat match goal with |- _ /\ _ => split end; try assumption; try reflexivity.
     - unfold workers. now rewrite map_length.
-    - rewrite Hres. cbn. rewrite Hres in Hcnt. cbn in Hcnt. rewrite Hcnt.
-      destruct R as [|[|R]]; [lia|lia|reflexivity].
-    - intros r Hr. unfold workers. rewrite nth_error_map, (Hnth r Hr) by lia. reflexivity.
+    - rewrite Hw. destruct R as [|[|R]]; [lia|lia|reflexivity].
+    - intros r Hr. unfold workers. rewrite nth_error_map, (Hnth r (Z.of_nat r)).
+      + cbn. f_equal. apply filter_ext. intros x. apply key_is_pid_in. lia.
+      + rewrite nth_error_map, (nth_error_nth' _ 0%nat) by now rewrite seq_length. now rewrite seq_nth.
     - erewrite (filter_ext_in (not_m1 pid)); [exact P|].
       intros e Hin. destruct Hdom as [Hdom _]. destruct (Hdom e Hin) as (z & Hz & Hcase).
-      unfold not_m1, in_range, kz. rewrite Hz. unfold fold_rank.
-      destruct (1000 <=? z) eqn:E0; destruct (z =? -1) eqn:E1; cbn;
-        match goal with |- _ = (?a <=? ?b) && (?c <? ?d) => destruct (a <=? b) eqn:E2, (c <? d) eqn:E3 end;
-        try reflexivity; lia.
+      unfold not_m1, pid_nonneg. rewrite Hz. destruct (z =? -1) eqn:E1, (0 <=? z) eqn:E2; try reflexivity; lia.
     - now rewrite Hc.
   Qed.
 
@@ -325,26 +503,40 @@ Section Flush.
   Qed.
 
   (* (T5) the pid -1 pseudo process (collective bandwidth counters) is no rank: whether it is present or not
-     changes neither the rank count nor any worker *)
+     changes neither the rank ids nor the rank count nor any worker *)
   Lemma tb_m1_irrelevant events devices save res res' :
     tb_flush pid did events devices save = Some res ->
     tb_flush pid did (filter (not_m1 pid) events) devices save = Some res' ->
-    tb_rank_cnt res' = tb_rank_cnt res /\ tb_views res' = tb_views res.
+    tb_rank_ids res' = tb_rank_ids res /\ tb_rank_cnt res' = tb_rank_cnt res /\ tb_views res' = tb_views res.
   Proof.
     intros H H'. destruct (flush_some _ _ _ _ H) as (eg & dg & He & Hd & ->).
     destruct (flush_some _ _ _ _ H') as (eg' & dg' & He' & Hd' & ->). cbn.
     rewrite Hd in Hd'. injection Hd' as <-.
-    assert (Hcnt : rank_cnt eg' = rank_cnt eg).
-    { apply (rank_cnt_char pid _ eg' (filter (fun k => 0 <=? k) (g_keys eg)) He').
-      - apply NoDup_filter. apply (parse_nodup pid _ _ _ He). constructor.
-      - intros k. rewrite filter_In, (parse_keys pid _ _ _ He k), Z.leb_le. cbn. split.
-        + intros [[[]|(x & Hx & Hkx)] Hk0]. split; [assumption|]. exists x. split; [|assumption].
-          apply filter_In. split; [assumption|]. now apply (key_is_not_m1 k).
-        + intros (Hk0 & x & Hx & Hkx). apply filter_In in Hx. split; [|assumption]. right. exists x. now split. }
-    split; [exact Hcnt|]. rewrite Hcnt. unfold views_of. apply map_ext_in. intros r _. f_equal.
-    rewrite (parsed_get pid _ _ He), (parsed_get pid _ _ He'). apply filter_key_not_m1. lia.
+    destruct (rank_ids_spec pid _ _ He) as (Hs & _ & _ & Hin).
+    destruct (rank_ids_spec pid _ _ He') as (Hs' & _ & _ & Hin').
+    assert (Hids : rank_ids eg' = rank_ids eg).
+    { apply sorted_unique; try assumption. intros k. rewrite Hin, Hin'. split.
+      - intros (Hk & x & Hx & Hkx). apply filter_In in Hx. split; [assumption|]. exists x. now split.
+      - intros (Hk & x & Hx & Hkx). split; [assumption|]. exists x. split; [|assumption].
+        apply filter_In. split; [assumption|]. now apply (key_is_not_m1 k). }
+    rewrite Hids. repeat split. unfold views_of. apply map_ext_in. intros r Hr. f_equal.
+    rewrite (parsed_get pid _ _ He), (parsed_get pid _ _ He'). apply filter_key_not_m1. now apply Hin.
   Qed.
 End Flush.
+
+(* regression lemma: the worker numbering before fix 0f462ed (workers 0..rank_cnt-1 whatever the rank ids are) violates
+   the partition statement on a trace of the ranks {2, 3}: workers 0 and 1 are empty, every event is in no worker *)
+Lemma dense_rule_refuted :
+  exists (events : list tbev) res,
+    (forall e, In e events -> pid_nonneg (@snd Z keyv) e = true) /\
+    tb_flush_dense (@snd Z keyv) (@snd Z keyv) events [] true = Some res /\
+    ~ Permutation (List.concat (workers res)) (filter (pid_nonneg (@snd Z keyv)) events).
+Proof.
+  exists [(1, KInt 2); (2, KInt 3); (3, KInt 1002); (4, KInt 1003)]. eexists. split; [|split].
+  - intros e [<-|[<-|[<-|[<-|[]]]]]; reflexivity.
+  - vm_compute. reflexivity.
+  - vm_compute. intros P. apply Permutation_length in P. discriminate.
+Qed.
 
 (* regression lemma: the rank-count rule before fix 6bb49ce violates the partition statement on a two-rank trace
    without pid -1 events (the last rank gets no worker) *)
